@@ -412,6 +412,16 @@ func (g *vGen) lockOp() vOp {
 			}
 		}
 	}
+	if g.profile != 9 {
+		// keep-alive bits: the harness' connections have no stream, so "the connection still lives" is never true — the request /
+		// hold must behave exactly as without the bit (on a follower too: the replicated-hold rule comes first)
+		if r.Intn(100) < 6 {
+			o.tflag |= 0x8000
+		}
+		if r.Intn(100) < 6 {
+			o.eflag |= 0x8000
+		}
+	}
 	if g.profile == 9 { // wild: every flag bit (less-lock-version, reverse-key, keep-alive, tree lock, from-aof, …) except the millisecond
 		// units (real time) and require-ack (needs the ack machinery); judged for crashes and hangs only
 		// (also not the journal-at-once expiry flags 0x0100 / 0x1000: this instance's Aof is not initialised the way a server's is, and a
